@@ -11,7 +11,7 @@ use std::process::{Command, Stdio};
 use std::sync::mpsc;
 use std::time::Duration;
 
-const KINDS: [&str; 10] = ["delete", "duplicate", "swap-next", "remove-block", "num-to-text", "num-to-huge", "num-to-big", "num-to-negative", "rename-ref", "truncate-here"];
+const KINDS: [&str; 12] = ["delete", "duplicate", "swap-next", "remove-block", "num-to-text", "num-to-huge", "num-to-big", "num-to-negative", "num-to-zero", "num-to-99", "rename-ref", "truncate-here"];
 
 #[derive(Clone)]
 struct FileSpec {
@@ -147,12 +147,14 @@ pub fn damage(lines: &[&str], li: usize, kind: &str, cap: usize) -> Option<Strin
             };
             Some(join_lines(lines[..li].iter().chain(lines[end + 1..].iter()).copied(), cap))
         }
-        "num-to-text" | "num-to-huge" | "num-to-big" | "num-to-negative" => {
+        "num-to-text" | "num-to-huge" | "num-to-big" | "num-to-negative" | "num-to-zero" | "num-to-99" => {
             let (a, b) = find_number(lines[li])?;
             let rep = match kind {
                 "num-to-text" => "abc",
                 "num-to-huge" => "1e39",
                 "num-to-big" => "123456789012",
+                "num-to-zero" => "0",
+                "num-to-99" => "99",
                 _ => "-7",
             };
             Some(with_line(&format!("{}{}{}", &lines[li][..a], rep, &lines[li][b..])))
